@@ -32,12 +32,19 @@ func (e TopoEv) String() string {
 }
 
 type SendTest struct {
-	From int    `json:"from"` // client index
-	Kind string `json:"kind"`
-	To   string `json:"to,omitempty"`
+	From int       `json:"from"` // client index
+	Kind string    `json:"kind"`
+	To   string    `json:"to,omitempty"`
+	Then *SendTest `json:"then,omitempty"` // a second frame sent on the same connection right after
 }
 
-func (t SendTest) String() string { return fmt.Sprintf("#%d:%s(%s)", t.From, t.Kind, t.To) }
+func (t SendTest) String() string {
+	s := fmt.Sprintf("#%d:%s(%s)", t.From, t.Kind, t.To)
+	if t.Then != nil {
+		s += fmt.Sprintf(" then %s(%s)", t.Then.Kind, t.Then.To)
+	}
+	return s
+}
 
 type c10World struct {
 	sess    []sessionInfo
@@ -140,81 +147,98 @@ func (w *c10World) runTest(t SendTest) {
 		return
 	}
 	lat := w.latest()
-	mk := func(id, to string) protocol.Envelope {
-		env, _ := protocol.NewEnvelope("offer", id, map[string]string{"sdp": id})
-		env.To = to
-		return env
-	}
 	expect := map[int][]string{} // client index -> expected msg ids in order
 	expectErr := 0
+	sentTo := map[string]string{}      // msg id -> the to field its author wrote
+	sentPayload := map[string]string{} // msg id -> the payload its author wrote
 	other := 1 - author.Sess
-	switch t.Kind {
-	case "addressed", "addressed-twice":
-		ids := []string{"m1"}
-		if t.Kind == "addressed-twice" {
-			ids = []string{"m1", "m2"}
+	// one performs one test kind with message ids m1, m2 (first message) or n1, n2 (second)
+	one := func(t SendTest, pfx string) {
+		mk := func(id, to string) protocol.Envelope {
+			env, _ := protocol.NewEnvelope("offer", pfx+id, map[string]string{"sdp": pfx + id})
+			env.To = to
+			sentTo[pfx+id] = to
+			sentPayload[pfx+id] = string(env.Payload)
+			return env
 		}
-		for _, id := range ids {
-			author.sendEnv(mk(id, t.To))
-		}
-		if i, ok := lat[author.Sess][t.To]; ok {
-			expect[i] = ids
-		} else {
-			expectErr = len(ids)
-		}
-	case "broadcast":
-		author.sendEnv(mk("m1", ""))
-		for p, i := range lat[author.Sess] {
-			if p != author.Peer {
-				expect[i] = []string{"m1"}
-			}
-		}
-	case "forged-from":
-		env := mk("m1", t.To)
-		env.From = "evil"
-		author.sendEnv(env)
-		if t.To == "" {
+		add := func(i int, ids ...string) { expect[i] = append(expect[i], ids...) }
+		bcast := func(id string) {
 			for p, i := range lat[author.Sess] {
 				if p != author.Peer {
-					expect[i] = []string{"m1"}
+					add(i, id)
 				}
 			}
-		} else if i, ok := lat[author.Sess][t.To]; ok {
-			expect[i] = []string{"m1"}
-		} else {
-			expectErr = 1
 		}
-	case "forged-session":
-		env := mk("m1", t.To)
-		env.SessionID = w.sess[other].ID
-		author.sendEnv(env)
-		if t.To == "" {
-			for p, i := range lat[author.Sess] {
-				if p != author.Peer {
-					expect[i] = []string{"m1"}
-				}
+		switch t.Kind {
+		case "addressed", "addressed-twice":
+			ids := []string{pfx + "1"}
+			if t.Kind == "addressed-twice" {
+				ids = []string{pfx + "1", pfx + "2"}
 			}
-		} else if i, ok := lat[author.Sess][t.To]; ok {
-			expect[i] = []string{"m1"}
-		} else {
-			expectErr = 1
+			for _, id := range ids {
+				author.sendEnv(mk(strings.TrimPrefix(id, pfx), t.To))
+			}
+			if i, ok := lat[author.Sess][t.To]; ok {
+				add(i, ids...)
+			} else {
+				expectErr += len(ids)
+			}
+		case "broadcast":
+			author.sendEnv(mk("1", ""))
+			bcast(pfx + "1")
+		case "broadcast-no-payload":
+			env := mk("1", "")
+			env.Payload = nil
+			sentPayload[pfx+"1"] = ""
+			author.sendEnv(env)
+			bcast(pfx + "1")
+		case "forged-from":
+			env := mk("1", t.To)
+			env.From = "evil"
+			author.sendEnv(env)
+			if t.To == "" {
+				bcast(pfx + "1")
+			} else if i, ok := lat[author.Sess][t.To]; ok {
+				add(i, pfx+"1")
+			} else {
+				expectErr++
+			}
+		case "forged-session":
+			env := mk("1", t.To)
+			env.SessionID = w.sess[other].ID
+			author.sendEnv(env)
+			if t.To == "" {
+				bcast(pfx + "1")
+			} else if i, ok := lat[author.Sess][t.To]; ok {
+				add(i, pfx+"1")
+			} else {
+				expectErr++
+			}
+		case "wrong-version":
+			env := mk("1", t.To)
+			env.V = 2
+			author.sendEnv(env)
+		case "missing-type":
+			env := mk("1", t.To)
+			env.Type = ""
+			author.sendEnv(env)
+		case "missing-id":
+			env := mk("", t.To)
+			env.MsgID = ""
+			author.sendEnv(env)
+		case "empty-object":
+			author.sendRaw(websocket.TextMessage, []byte("{}"))
+		case "not-json":
+			author.sendRaw(websocket.TextMessage, []byte("{not json"))
+		case "binary":
+			b, _ := json.Marshal(mk("1", t.To))
+			author.sendRaw(websocket.BinaryMessage, b)
 		}
-	case "wrong-version":
-		env := mk("m1", t.To)
-		env.V = 2
-		author.sendEnv(env)
-	case "missing-type":
-		env := mk("m1", t.To)
-		env.Type = ""
-		author.sendEnv(env)
-	case "missing-id":
-		env := mk("", t.To)
-		author.sendEnv(env)
-	case "not-json":
-		author.sendRaw(websocket.TextMessage, []byte("{not json"))
-	case "binary":
-		b, _ := json.Marshal(mk("m1", t.To))
-		author.sendRaw(websocket.BinaryMessage, b)
+	}
+	one(t, "m")
+	if t.Then != nil {
+		// a second frame on the same connection: nothing of the first may carry over
+		one(*t.Then, "n")
 	}
 	settle()
 	for i, c := range w.clients {
@@ -237,6 +261,18 @@ func (w *c10World) runTest(t SendTest) {
 				}
 				if f.From != author.Peer {
 					w.violate("from-field-not-the-authors-identity", fmt.Sprintf("%s: recipient %s sees from=%q, the author connected as %q", t, c.Peer, f.From, author.Peer))
+				}
+				if to, ok := sentTo[f.MsgID]; ok && f.To != to {
+					w.violate("to-field-altered", fmt.Sprintf("%s: message %s was written with to=%q and arrives at %s with to=%q", t, f.MsgID, to, c.Peer, f.To))
+				}
+				if pl, ok := sentPayload[f.MsgID]; ok {
+					got := string(f.Payload)
+					if got == "null" {
+						got = ""
+					}
+					if got != pl {
+						w.violate("payload-altered", fmt.Sprintf("%s: message %s was written with payload %q and arrives at %s with %q", t, f.MsgID, pl, c.Peer, got))
+					}
 				}
 			}
 		}
@@ -293,10 +329,19 @@ func (w *c10World) tests() []SendTest {
 		}
 		sort.Strings(tl)
 		for _, to := range tl {
-			out = append(out, SendTest{i, "addressed", to}, SendTest{i, "forged-from", to}, SendTest{i, "forged-session", to})
+			out = append(out, SendTest{From: i, Kind: "addressed", To: to}, SendTest{From: i, Kind: "forged-from", To: to}, SendTest{From: i, Kind: "forged-session", To: to})
 		}
-		out = append(out, SendTest{i, "addressed-twice", tl[0]}, SendTest{i, "broadcast", ""}, SendTest{i, "forged-from", ""}, SendTest{i, "forged-session", ""},
-			SendTest{i, "wrong-version", ""}, SendTest{i, "missing-type", tl[0]}, SendTest{i, "missing-id", ""}, SendTest{i, "not-json", ""}, SendTest{i, "binary", tl[0]})
+		// two frames in a row on one connection: the second must be judged on its own
+		seqKinds := []SendTest{{Kind: "addressed", To: tl[0]}, {Kind: "broadcast"}, {Kind: "broadcast-no-payload"}, {Kind: "empty-object"}, {Kind: "missing-type", To: tl[0]}, {Kind: "wrong-version"}, {Kind: "forged-session", To: tl[0]}}
+		for _, a := range seqKinds {
+			for _, b := range seqKinds {
+				b := b
+				out = append(out, SendTest{From: i, Kind: a.Kind, To: a.To, Then: &b})
+			}
+		}
+		out = append(out, SendTest{From: i, Kind: "empty-object"}, SendTest{From: i, Kind: "broadcast-no-payload"})
+		out = append(out, SendTest{From: i, Kind: "addressed-twice", To: tl[0]}, SendTest{From: i, Kind: "broadcast", To: ""}, SendTest{From: i, Kind: "forged-from", To: ""}, SendTest{From: i, Kind: "forged-session", To: ""},
+			SendTest{From: i, Kind: "wrong-version", To: ""}, SendTest{From: i, Kind: "missing-type", To: tl[0]}, SendTest{From: i, Kind: "missing-id", To: ""}, SendTest{From: i, Kind: "not-json", To: ""}, SendTest{From: i, Kind: "binary", To: tl[0]})
 	}
 	return out
 }
